@@ -238,8 +238,8 @@ class WSStream:
                 )
                 await self.app_put({"type": "websocket.connect"})
         elif isinstance(event, (Body, Data)) and not self.handshake.accepted:
+            self.closed = True  # Before responding, so the app cannot also respond
             await self._send_error_response(400)
-            self.closed = True
             if self.app_put is not None:
                 await self.app_put(
                     {"type": "websocket.disconnect", "code": CloseReason.ABNORMAL_CLOSURE.value}
